@@ -199,14 +199,29 @@ class Check:
 
     # ---------------------------------------------------------------- harness
     def cargo_build(self, pkg, features=None, bin=None, release=False, extra_env=None):
+        """Build a harness crate against /repo's working tree.  If VERIF_REPO names another directory (a
+        *copy* of the repository with deliberate edits, used to test the checks themselves without
+        touching the shared /repo) every path dependency into /repo/crates/* is overridden by the copy
+        (cargo `paths` override) and a separate target directory is used."""
         cmd = ["cargo", "build", "-p", pkg]
         if features: cmd += ["--features", features]
         if release: cmd += ["--release"]
-        rc, out = sh(cmd, cwd=HARNESS, timeout=3000, env=extra_env)
+        target = TARGET
+        env = dict(extra_env or {})
+        if os.path.realpath(REPO) != "/repo":
+            target = os.path.join(BUILD, "target-mut")
+            crates = [os.path.join(REPO, "crates", d) for d in sorted(os.listdir(os.path.join(REPO, "crates")))
+                      if os.path.exists(os.path.join(REPO, "crates", d, "Cargo.toml"))]
+            macro = os.path.join(REPO, "crates", "guest-rust", "macro")
+            if os.path.exists(os.path.join(macro, "Cargo.toml")): crates.append(macro)
+            cmd += ["--target-dir", target, "--config", "paths=[%s]" % ",".join('"%s"' % c for c in crates)]
+            env["VERIF_REPO"] = REPO
+            self.notes.append(f"{pkg} built against the repo copy {REPO}")
+        rc, out = sh(cmd, cwd=HARNESS, timeout=3000, env=env)
         if rc != 0:
             self.broken.append((f"harness build {pkg}", out[-3000:]))
             return None
-        return os.path.join(TARGET, "release" if release else "debug", bin or pkg)
+        return os.path.join(target, "release" if release else "debug", bin or pkg)
 
     # ---------------------------------------------------------------- correspondence
     def compare(self, name, requests, impl, model, nontrivial=lambda r, o: True, canon=lambda x: x):
